@@ -317,7 +317,7 @@ def gen_memsim(bdir, config, flags):
 
 # =============================================================================== viewsim catalogue
 V_SHAPES = {
-    1: [(3,), (5,), (8,), (9,), (12,), (16,), (17,), (33,)],
+    1: [(3,), (5,), (8,), (9,), (12,), (16,), (17,), (33,), (40,), (72,), (136,), (264,)],   # long 1-D shapes: block-wise staging thresholds
     2: [(2, 2), (3, 4), (4, 5), (3, 8), (5, 9), (2, 16), (3, 17), (4, 4), (8, 8)],
     3: [(2, 2, 2), (2, 3, 4), (2, 3, 8), (3, 2, 9), (2, 2, 17)],
     4: [(2, 2, 2, 3), (2, 2, 3, 8)],
